@@ -280,7 +280,8 @@ fn random_query(rng: &mut Rng, regs: &mut Regs, out: &mut Out, o: usize) {
   let lon = lon.rem_euclid(crate::geo::TWO_PI);
   match rng.below(4) {
     0 | 1 => {
-      let r = 10f64.powf(rng.range(-3.5, 0.3)).min(3.2);
+      // incl. the whole-sky answers (radius >= pi) and very large cones
+      let r = match rng.below(12) { 0 => crate::geo::PI, 1 => 3.5, 2 => 3.0, _ => 10f64.powf(rng.range(-3.5, 0.3)) }.min(3.6);
       let dd = rng.below(3) as u8;
       let res = if dd == 0 { guarded(|| nested::cone_coverage_approx(depth, lon, lat, r)) } else { guarded(|| nested::cone_coverage_approx_custom(depth, dd, lon, lat, r)) };
       ev_query(regs, out, o, "cone", res);
